@@ -88,12 +88,16 @@ def run(ctx, rep):
                 (c.decl == 'std::iter::IntoIterator::into_iter' and c.args and HASHY.search(f.locals[(c.args[0].get('m') or c.args[0].get('c') or [0])[0]]['ty'] if isinstance(c.args[0], dict) and ('m' in c.args[0] or 'c' in c.args[0]) else ''))
             if hit:
                 sites.setdefault(f.path, []).append(c)
+    from . import layer_roles
+    ROLES = layer_roles.roles(prog, sl)
+    alias = {ROLES['REPLACE_EXECD']: 'libcnb::layer::shared::replace_layer_exec_d_programs'} if ROLES.get('REPLACE_EXECD') else {}
     for fp, cs in sorted(sites.items()):
         rep.sites(len(cs))
         rep.analysed(prog.fns[fp])
-        reason = TRIAGED.get(fp)
+        tfp = alias.get(fp, fp)
+        reason = TRIAGED.get(tfp)
         kinds = sorted({(c.name or '').split('::')[-1] + ('@' + re.sub(r'<.*', '', (c.name or '').split('::')[-2]) if '::' in (c.name or '') else '') for c in cs})
-        if reason and kinds == TRIAGED_KINDS.get(fp):
+        if reason and kinds == TRIAGED_KINDS.get(tfp):
             rep.holds('R2', fp, cs[0].where(), 'hash iteration triaged: ' + reason)
         elif reason:
             rep.violated('R2', fp + '/new-iteration', cs[0].where(), 'a triaged function iterates a hash container in a new way (%s, triaged: %s): re-triage whether the order can reach output bytes'
@@ -110,7 +114,7 @@ def run(ctx, rep):
     wf, wt, wcalls = L.writer_scope_table(prog, sl)
     rep.check(wt.get('process[*]') == ('env.launch', '<key>'), 'R2', 'triage-basis/process-scopes', '%s:%d' % (wf.file, wf.line),
               'each process scope goes to its own directory named by the key', 'process scopes are no longer written one directory per key')
-    rx = prog.fn('libcnb::layer::shared::replace_layer_exec_d_programs')
+    rx = prog.fn(ROLES['REPLACE_EXECD'] or 'libcnb::layer::shared::replace_layer_exec_d_programs')
     cp = [(g, c) for g in [rx] + prog.closures_of(rx) for c in g.calls if c.is_('std::fs::copy')]
     ok = len(cp) == 1
     if ok:
